@@ -225,6 +225,11 @@ func (m *StateMachine) handleCatchupEvent(
 				return false
 			}
 			verifSMTrace(m, "CatchupFinalized", rlc)
+
+			// Handling the finalization entered the next height.
+			// Return to the kernel loop so that it re-evaluates whether we are still replaying,
+			// otherwise live events would never be handled again.
+			return true
 		}
 	}
 }
